@@ -9,7 +9,7 @@ impl AdjacencyMap {
         forall|k: usize| #[trigger] self.arcs@.contains_key(k) == (k < self.arcs@.len())
     }
 
-    /*@fn impl=AdjacencyMap trait=Converse name=converse props=C11,C13
+    /*@fn impl=AdjacencyMap trait=Converse name=converse props=C13 clauseprops=C11
     requires
         self.wf(),
     ensures
@@ -393,9 +393,11 @@ fn empty_set() -> (r: &'static BTreeSet<usize>)
 }
 
 impl AdjacencyMap {
-    /*@fn impl=AdjacencyMap trait=IsSemicomplete name=is_semicomplete props=C12,C13
+    /*@fn impl=AdjacencyMap trait=IsSemicomplete name=is_semicomplete props=C13 clauseprops=C12
     requires
         self.wf(),
+        // the product order * (order - 1) needs order <= 2^32 (a digraph that large cannot be built); not part of finding F6
+        self.ord() <= 0x1_0000_0000,
     ensures
         r == map_semicomplete(*self),
     @closure 1 || -> (x: &BTreeSet<usize>)
@@ -403,6 +405,7 @@ impl AdjacencyMap {
         false,
     @after `let order = self.order();`
         broadcast use lemma_map_verts_contains;
+        proof { assert(order * (order - 1) <= usize::MAX) by (nonlinear_arith) requires 1 <= order <= 0x1_0000_0000; }
     @before `return false;`
         proof {
             // fewer arcs than unordered pairs: some pair is not joined
@@ -581,9 +584,11 @@ impl AdjacencyMap {
 }
 
 impl AdjacencyMap {
-    /*@fn impl=AdjacencyMap trait=IsTournament name=is_tournament props=C12,C13
+    /*@fn impl=AdjacencyMap trait=IsTournament name=is_tournament props=C13 clauseprops=C12
     requires
         self.wf(),
+        // the product order * (order - 1) needs order <= 2^32 (a digraph that large cannot be built); not part of finding F6
+        self.ord() <= 0x1_0000_0000,
     ensures
         r == map_tournament(*self),
     @closure 1 || -> (x: &BTreeSet<usize>)
@@ -591,6 +596,7 @@ impl AdjacencyMap {
         false,
     @after `let order = self.order();`
         broadcast use lemma_map_verts_contains;
+        proof { assert(order * (order - 1) <= usize::MAX) by (nonlinear_arith) requires 1 <= order <= 0x1_0000_0000; }
     @before `return false;`
         proof {
             // the number of arcs differs from the number of unordered pairs: some pair is not joined exactly once
@@ -782,7 +788,7 @@ spec fn map_tournament(g: AdjacencyMap) -> bool {
 }
 
 impl AdjacencyMap {
-    /*@fn impl=AdjacencyMap trait=Complement name=complement props=C11,C13
+    /*@fn impl=AdjacencyMap trait=Complement name=complement props=C13 clauseprops=C11
     requires
         self.wf(),
     ensures
@@ -802,7 +808,11 @@ impl AdjacencyMap {
     @before `Self {`
         proof {
             // `vertices` is the set of POSITIONS 0..order, not the vertex set
-            assert forall|x: usize| vertices@.contains(x) == (x < order) by { lemma_range_set(order, vertices@, x); }
+            assert forall|rem: Seq<usize>| rem.len() == order && (forall|i: int| 0 <= i < order ==> #[trigger] rem[i] == i)
+                && #[trigger] rem.to_set() == vertices@ implies (forall|x: usize| vertices@.contains(x) == (x < order)) by {
+                assert forall|x: usize| vertices@.contains(x) == (x < order) by { lemma_range_set(order, rem, x); }
+            }
+            assert(forall|x: usize| vertices@.contains(x) == (x < order));
             // the collected map has the keys of self and, at key k, the positions that are neither k nor successors of k
             assert forall|src: Seq<(&usize, &BTreeSet<usize>)>, rem: Seq<(usize, BTreeSet<usize>)>, m: BTreeMap<usize, BTreeSet<usize>>|
                 map_items_of(self.arcs@, src) && rem.len() == src.len()
@@ -836,7 +846,11 @@ impl AdjacencyMap {
     @before `Self {`
         proof {
             // `vertices` is the set of POSITIONS 0..order, not the vertex set
-            assert forall|x: usize| vertices@.contains(x) == (x < order) by { lemma_range_set(order, vertices@, x); }
+            assert forall|rem: Seq<usize>| rem.len() == order && (forall|i: int| 0 <= i < order ==> #[trigger] rem[i] == i)
+                && #[trigger] rem.to_set() == vertices@ implies (forall|x: usize| vertices@.contains(x) == (x < order)) by {
+                assert forall|x: usize| vertices@.contains(x) == (x < order) by { lemma_range_set(order, rem, x); }
+            }
+            assert(forall|x: usize| vertices@.contains(x) == (x < order));
             // the collected map has the keys of self and, at key k, the positions that are neither k nor successors of k
             assert forall|src: Seq<(&usize, &BTreeSet<usize>)>, rem: Seq<(usize, BTreeSet<usize>)>, m: BTreeMap<usize, BTreeSet<usize>>|
                 map_items_of(self.arcs@, src) && rem.len() == src.len()
@@ -1225,12 +1239,11 @@ spec fn complement_rows(g: AdjacencyMap, m: Map<usize, BTreeSet<usize>>, full: S
 }
 
 /// the set collected from `0..n`
-proof fn lemma_range_set(n: usize, s: Set<usize>, x: usize)
-    requires s == Seq::new(n as nat, |i: int| i as usize).to_set(),
-    ensures s.contains(x) == (x < n),
+proof fn lemma_range_set(n: usize, rem: Seq<usize>, x: usize)
+    requires rem.len() == n, forall|i: int| 0 <= i < n ==> #[trigger] rem[i] == i,
+    ensures rem.to_set().contains(x) == (x < n),
 {
-    let rem = Seq::new(n as nat, |i: int| i as usize);
-    if s.contains(x) { let k = choose|k: int| 0 <= k < rem.len() && rem[k] == x; }
+    if rem.to_set().contains(x) { let k = choose|k: int| 0 <= k < rem.len() && rem[k] == x; }
     if x < n { assert(rem[x as int] == x); }
 }
 
